@@ -352,7 +352,13 @@ func (g *G) proof(against *didtypes.DIDDocument, authKeys []int, content []byte,
 			return id, sig, "right"
 		}
 	}
-	switch g.weighted("wrong-proof", "vm-only", 3, "not-listed", 3, "wrong-seq", 4, "prev-content", 2, "other-content", 2, "garbage", 2, "empty", 1, "wrong-id", 2, "foreign-did", 3) {
+	switch g.weighted("wrong-proof", "vm-only", 3, "not-listed", 3, "wrong-seq", 4, "prev-content", 2, "other-content", 2, "garbage", 2, "empty", 1, "wrong-id", 2, "foreign-did", 3, "empty-id", 2) {
+	case "empty-id":
+		// an otherwise right proof that quotes no method id at all
+		if len(auth) > 0 {
+			a := pick(g, "auth-entry", auth)
+			return "", sign(a[0].(int), content, seq), "empty-method-id"
+		}
 	case "foreign-did":
 		// a valid authentication key of ANOTHER registered DID, quoted with that DID's method id
 		var cands [][2]interface{}
